@@ -659,6 +659,14 @@ def answer (line : String) : String :=
         match Locale.fromBytes v with
         | .ok x =>
           let k := ((a[1]?).bind String.toNat?).getD 0
+          if k == 8 || k == 9 then
+            -- `set_variants(&[])` against `clear_variants()` (8) / against the parse of its own text (9)
+            let y : Locale := { x with id := x.id.setVariants [] }
+            let x' : Option Locale := if k == 8 then some { x with id := x.id.clearVariants } else (Locale.fromBytes y.display).toOption
+            match x' with
+            | some x => s!"ok eq={b01 (x == y)} cmp={ordStr (cmpLoc x y)} he={b01 (x == y)} se={b01 (x.display == y.display)}"
+            | none => "ok reparsefail"
+          else
           match routeValue Gen.tables x k with
           | some y => s!"ok eq={b01 (x == y)} cmp={ordStr (cmpLoc x y)} he={b01 (x == y)} se={b01 (x.display == y.display)}"
           | none => "ok fail"
